@@ -29,6 +29,8 @@ SRC = {  # id -> (worktree, n)
     "C11-6": ("/tmp/wt7-C11", 1), "C11-7": ("/tmp/wt7-C11", 2),
     # eighth round (native-tls shim / handshake wrapper of C15)
     "C15-1": ("/tmp/wt8-C15", 1), "C15-2": ("/tmp/wt8-C15", 2),
+    # ninth round (connection close of C16, worker loop of C18)
+    "C16-1": ("/tmp/wt9", 1), "C18-1": ("/tmp/wt9", 2),
     "C11-3": ("/tmp/wt4-C11", 1), "C11-4": ("/tmp/wt4-C11", 2), "C11-5": ("/tmp/wt4-C11", 3),
 }
 RESULTS = json.load(open(os.path.join(os.path.dirname(__file__), "seed_results.json")))
